@@ -123,7 +123,7 @@ def _root_.Strengths.Target.wf : Target → Prop
   | _ => True
 
 theorem parseUnits_valid {s : String} {u : Units} (h : parseUnits s = .ok u) : u.sys.valid = true := by
-  simp only [parseUnits, parseUnitsChars] at h
+  simp only [parseUnits, parseUnitsChars, parseUnitsCore] at h
   split at h
   · cases h; exact default_system_valid
   · split at h
